@@ -19,6 +19,12 @@ type GenOpts struct {
 	// jailed, opted out, re-keyed, and its self-stake is never undelegated, so the chain always
 	// has a validator. Properties about the validator set itself switch this off.
 	Anchor bool
+	// FocusAsset >= 0 makes asset choices prefer that asset (drawn per case by the runner when
+	// Focus is set), so that histories concentrate on one ledger (e.g. the NST one).
+	Focus      bool
+	FocusPct   int
+	ForceFocus int // > 0: always focus on asset ForceFocus-1
+	FocusAsset int
 	// Tempos: per case, the maximum block step is drawn from this list (0 entries = MaxDt).
 	Tempos []int
 	// CapBits > 0 replaces extreme amounts by values below 2^CapBits (exclusion by construction of a
@@ -192,7 +198,12 @@ func (m *Machine) Draw(t *rapid.T, g *GenOpts) Action {
 	defer func() {}()
 	actor := func() int { return uniform(t, m.NumActors(), "actor") }
 	op := func() int { return uniform(t, len(m.W.Operators), "op") }
-	anyAsset := func() int { return uniform(t, len(m.W.Cfg.Assets), "asset") }
+	anyAsset := func() int {
+		if g.Focus && g.FocusAsset >= 0 && g.FocusAsset < len(m.W.Cfg.Assets) && pct(t, maxInt(g.FocusPct, 70), "focus?") {
+			return g.FocusAsset
+		}
+		return uniform(t, len(m.W.Cfg.Assets), "asset")
+	}
 	maxDt := g.MaxDt
 	if maxDt <= 0 {
 		maxDt = 40
@@ -272,9 +283,41 @@ func (m *Machine) Draw(t *rapid.T, g *GenOpts) Action {
 		a.Actor = actor()
 		a.Op = op()
 		a.Lz = uint64(101 + rapid.IntRange(0, 1).Draw(t, "lz"))
+		if v != nil && pct(t, 70, "assoc-existing?") {
+			type pr struct {
+				actor, op int
+				lz        uint64
+			}
+			var ps []pr
+			for ac := 0; ac < m.NumActors(); ac++ {
+				for as := range m.W.Cfg.Assets {
+					for o := range m.W.Operators {
+						k := m.StakerID(ac, as) + "/" + m.W.AssetIDs[as] + "/" + m.W.Operators[o].Bech32()
+						if d, ok := v.Delegations[k]; ok && d.Share.Sign() > 0 {
+							ps = append(ps, pr{ac, o, m.W.Cfg.Assets[as].LzID})
+						}
+					}
+				}
+			}
+			if len(ps) > 0 {
+				p := ps[uniform(t, len(ps), "assoc-pair")]
+				a.Actor, a.Op, a.Lz = p.actor, p.op, p.lz
+			}
+		}
 	case "dissociate":
 		a.Actor = actor()
 		a.Lz = uint64(101 + rapid.IntRange(0, 1).Draw(t, "lz"))
+		if v != nil && len(v.Associations) > 0 && pct(t, 80, "dissoc-existing?") {
+			ids := sortedKeys(v.Associations)
+			id := ids[uniform(t, len(ids), "dissoc-id")]
+			for ac := 0; ac < m.NumActors(); ac++ {
+				for _, lz := range []uint64{101, 102} {
+					if stakerIDOn(m, ac, lz) == id {
+						a.Actor, a.Lz = ac, lz
+					}
+				}
+			}
+		}
 	case "depositNST":
 		a.Asset = m.nstAsset()
 		a.Actor = actor()
@@ -317,6 +360,21 @@ func (m *Machine) Draw(t *rapid.T, g *GenOpts) Action {
 			return a
 		}
 		a.Actor = have[uniform(t, len(have), "nstactor")]
+		// prefer stakers with pending NST undelegations (the records are slashed before shares)
+		if v != nil && pct(t, 60, "nst-pending?") {
+			var withPending []int
+			for _, ac := range have {
+				for _, u := range v.Undelegations {
+					if u.Staker == m.StakerID(ac, a.Asset) && u.Asset == m.W.AssetIDs[a.Asset] {
+						withPending = append(withPending, ac)
+						break
+					}
+				}
+			}
+			if len(withPending) > 0 {
+				a.Actor = withPending[uniform(t, len(withPending), "nstactor2")]
+			}
+		}
 		a.Neg = rapid.IntRange(0, 3).Draw(t, "neg?") > 0
 		var total *big.Int
 		if v != nil {
@@ -425,6 +483,10 @@ func (m *Machine) Draw(t *rapid.T, g *GenOpts) Action {
 		}
 	}
 	return a
+}
+
+func stakerIDOn(m *Machine, actor int, lz uint64) string {
+	return simStakerID(m.ActorAddr(actor), lz)
 }
 
 const nativeAssetID = "0x0000000000000000000000000000000000000000_0x0"
